@@ -30,6 +30,8 @@ TABLES = [
      {i: (i, 100 + i) for i in range(1, 7)}),
     ('T6', 'T6::.table([["a" [1 2 3 4 5 6]] ["b" [201 202 203 204 205 206]]]);.index(T6;["a"])',
      {i: (i, 200 + i) for i in range(1, 7)}),
+    # a table without rows is still a value: a key set to it reads as an empty table, not as :undefined
+    ('T7', 'T7::.table([["a" []] ["b" []]])', {}),
 ]
 
 
